@@ -65,7 +65,10 @@ theorem specEv_shape {m : Mode} {v v' : View} {e : Ev} {t : List Note}
               · simp only [Option.some.injEq, Prod.mk.injEq] at hs
                 exact .accept _ _ hup (by simpa using hc.2) hs.1.symm hs.2.symm
               · cases hs
-            · cases hs
+            · split at hs
+              · simp only [Option.some.injEq, Prod.mk.injEq] at hs
+                exact .same hs.1.symm hs.2.symm
+              · cases hs
           · split at hs
             · split at hs
               · rename_i hc
